@@ -343,7 +343,7 @@ class Body:
                     and str(pr[0].get("of", "")).startswith("closure:") and pr[0]["f"] < len(self.d["upvars"]):
                 # captured place: expand the upvar's path (`*self.state.x`) into pseudo field projections
                 name = self.d["upvars"][pr[0]["f"]]["name"].lstrip("*&")
-                segs = [x for x in name.split(".")[1:] if x]
+                segs = [x for x in name.split(".")[1:] if x] if "." in name else [name]
                 pr = [pr[0]] + [{"f": -1, "of": "?upvar", "n": sg} for sg in segs] + pr[1:]
             if pr:
                 proj = pr + proj
